@@ -66,6 +66,22 @@ CHECKS = {
         "Grid avoiding ties (events at even seconds, cancellation at half seconds, timers at odd seconds); hold timing is C05's; "
         "MQTT/webhook conditions not generated here (C08 covers their delivery); recordings sampled.",
         "DESIGN.md section 5 C15"),
+    "C02": (
+        "TLC model checking of spec/PyFlowMC.tla (TLC-enumerated control-flow skeletons x oracle vectors; machine theorems on "
+        "runs generated by the statement machine spec/PyFlowCore.tla) + trace validation: generated programs executed under "
+        "CPython and under pyscript's AstEval, both recordings decided by the acceptor spec/PyFlow.tla (same rules in "
+        "checking mode)",
+        "Python's control flow is an explicit TLA+ completion-record statement machine (if/while/for+else, break/continue/"
+        "return, try/except/else/finally, raise / bare raise / raise-from, with 1-2 managers, assert, function boundary). TLC "
+        "enumerates every skeleton of nesting <= 2 with every jump placement and oracle vector and checks FinallyExactlyOnce, "
+        "ExitPairsEnterLIFO, ElseIffNoBreak, JumpsStayInFunction and agreement of generator and acceptor mode. The code is "
+        "bound by trace validation: bounded-exhaustive skeleton families (nesting 1-3, all oracle paths) and random programs "
+        "to depth 6 are run under CPython and pyscript; TLC accepts every CPython recording (validating the specification) and "
+        "decides every pyscript recording.",
+        "Families of nesting 2/3 are sampled in the quick tier; TLC's own enumeration stops at nesting 2; exception identity = "
+        "(class, raise site, cause class); native context managers/iterators only; one known deviation left (exceptions outside "
+        "the Exception hierarchy are invisible to except/__exit__), masked: only the masked space is claimed clean there.",
+        "DESIGN.md section 5 C02, Appendix D, notes/C02.md"),
 }
 
 NOT_YET = {
